@@ -37,9 +37,9 @@ def run(ctx):
                 "(every chunking, Interrupted anywhere) x all scripts, (A) Reader vs (B) ReaderImpl, BUF in {2,3,4}. "
                 "S->I: one replay case per transition of that graph (input, per-call source behaviour, expected "
                 "results), run on the real Reader built with a 4-byte buffer and with the production buffer, for every "
-                "integer width that can hold the values; non-trivial = case whose schedule splits the input or raises "
-                "Interrupted. I->S: 1 MB (thorough 6 MB) of generated token/line inputs read through the 64 KiB "
-                "buffer under 7 chunking modes, validated by ReaderTrace against (A) with BigNat integers.")
+                "integer width that can hold the values; plus the same over {'1',LF,CR} up to 5 (thorough 6) bytes, longer than "
+                "the 4-byte buffer; non-trivial = case whose schedule splits the input or raises Interrupted. I->S: 1 MB (thorough 6 MB) of generated token/line inputs read through the 64 KiB "
+                "buffer under 7 chunking modes, plus LF/CR-dense wrap probes a few bytes longer than one or two buffers ending in a lone CR, validated by ReaderTrace against (A) with BigNat integers.")
     prod = build(ctx)
     small = small_binary(ctx)
     # --- MC: refinement of (B) to (A) under every source behaviour
@@ -64,6 +64,11 @@ def run(ctx):
     v1 = ctx.replay(small, "reader", cases, stage="replay-buf4")
     v2 = ctx.replay(prod, "reader", cases, stage="replay-buf64k")
     ctx.distinct_nontrivial += v1["extra"].get("nontrivial_cases", 0)
+    # inputs longer than the 4-byte buffer (the buffer is refilled, and reused, at least once): line alphabet only
+    g2 = ctx.cfg("reader", "ReaderGen.cfg", {"Alphabet": "{49, 10, 13}", "MaxLen": ctx.q("5", "6"), "MaxEintr": "0"}, name="ReaderGen_long.cfg")
+    cases2, n2 = ctx.gen("reader", "ReaderGen", g2, "cases_long.ndjson", workers=8, timeout=ctx.q(900, 3000), coverage=False, stage="gen-long")
+    v3 = ctx.replay(small, "reader", cases2, stage="replay-long-buf4")
+    ctx.distinct_nontrivial += v3["extra"].get("nontrivial_cases", 0)
     ctx.extra["distinct_inputs_replayed"] = v1["extra"].get("distinct_inputs")
     ctx.exhaustive = True
     # --- I->S
